@@ -303,3 +303,60 @@ func TestVerif_C18_UntypedMapperAllTokens(t *testing.T) {
 	}
 	res.emit(t)
 }
+
+// ---- C10: trailing elided tokens are no different from the end of the input (F31) ----
+
+type r7Opt struct {
+	X string `@Ident`
+	V string `( @"a"? | @"b" )`
+	W string `( @"c" | @"d"? )`
+}
+
+func TestVerif_C10_TrailingElidedAtChoice(t *testing.T) {
+	res := &xResult{Check: "choice at the end of the input", Property: "C10", Exhaustive: true,
+		Bound: "one grammar whose choices have an alternative that can match nothing, inputs of <= 3 words over {x, a, b, c, d} in 4 spacings (none, trailing blank, trailing newline, trailing comment), lookahead 1 and unlimited",
+		Rule: "(input, spacing, lookahead) triples; non-trivial = the input ends in an elided token"}
+	lex := lexer.MustSimple([]lexer.SimpleRule{{Name: "Ident", Pattern: `[a-z]+`}, {Name: "Comment", Pattern: `#[^\n]*`}, {Name: "Whitespace", Pattern: `\s+`}})
+	words := []string{"x", "a", "b", "c", "d"}
+	var inputs [][]string
+	for _, a := range words {
+		inputs = append(inputs, []string{a})
+		for _, b := range words {
+			inputs = append(inputs, []string{a, b})
+			for _, c := range words {
+				inputs = append(inputs, []string{a, b, c})
+			}
+		}
+	}
+	for _, k := range []int{1, -1} {
+		p, err := participle.Build[r7Opt](participle.Lexer(lex), participle.Elide("Comment", "Whitespace"), participle.UseLookahead(k))
+		if err != nil {
+			res.violate("Build: %v", err)
+			break
+		}
+		run := func(in string) (out string) {
+			defer func() {
+				if r := recover(); r != nil {
+					out = fmt.Sprintf("PANIC %v", r)
+				}
+			}()
+			v, err := p.ParseString("", in)
+			if err != nil {
+				return "error"
+			}
+			return fmt.Sprintf("%+v", *v)
+		}
+		for _, ws := range inputs {
+			base := strings.Join(ws, " ")
+			want := run(base)
+			for _, tail := range []string{" ", "\n", " # c", "  \n\n"} {
+				res.Evaluations++
+				res.Distinct++
+				if got := run(base + tail); got != want {
+					res.violate("lookahead %d: %q gives %s, %q gives %s", k, base, want, base+tail, got)
+				}
+			}
+		}
+	}
+	res.emit(t)
+}
